@@ -151,7 +151,16 @@ pub fn test_case(ctx: &Ctx, c: &CleanCase, stats: &mut Stats) -> Result<(), Stri
                     {
                         return Err(format!("cleaned target {} came back with different bytes", t));
                     }
-                    if f.exec != was.exec
+                    // "if those targets were up to date before the clean": a target whose permission already differed from what
+                    // its rule's command produces was not (an earlier build of the history may have handed it a byte-identical
+                    // copy with the other permission — the known finding — and the twin may be gone by now, e.g. its rule was
+                    // removed).  Coming back with the command's permission is then not a change to complain about.
+                    let ref_exec = build.reference.files.get(t).map(|x| x.1);
+                    if f.exec != was.exec && ref_exec.is_some() && ref_exec != Some(was.exec)
+                    {
+                        stats.class("permission-was-not-up-to-date-before-the-clean");
+                    }
+                    else if f.exec != was.exec
                     {
                         // who else held the same bytes with the other permission?
                         // the known finding's signature: byte-identical content sits (or sat) somewhere else too — at
